@@ -643,6 +643,34 @@ def run(ctx):
                     viol("resSeq|beyond-field|" + ext_, ".%s with residue numbers up to 1234567 reloads as %d atoms in %d residues, coordinates off by %.3g" % (ext_, lb.n_atoms, lb.n_residues, float(np.abs(lb.xyz - xb).max()) if lb.xyz.shape == xb.shape else -1), dict(ext=ext_))
             except Exception as e:  # noqa: BLE001
                 viol("resSeq|beyond-field|" + ext_, "a .%s file written for residue numbers up to 1234567 cannot be read back: %s: %s" % (ext_, type(e).__name__, str(e)[:120]), dict(ext=ext_))
+        # ---- a cell edited in place through the arrays the properties hand out (t.unitcell_lengths *= s; t.unitcell_angles[:, 2] = g) after
+        # the vectors were asked for once: every format must store the cell the trajectory has now
+        for k_ in range(ctx.n(2, 8)):
+            te = md.Trajectory(np.round(np.random.RandomState(k_).rand(3, 7, 3), 3).astype(np.float32) * 2, make_top(md, 7), time=np.arange(3.0),
+                               unitcell_lengths=np.tile([3.0, 3.5, 4.0], (3, 1)), unitcell_angles=np.tile([80.0, 85.0, 70.0], (3, 1)))
+            _ = te.unitcell_vectors; _ = te.unitcell_volumes
+            te.save(os.path.join(scratch, "edit0.xtc"))
+            te.unitcell_lengths *= np.float32(1.25)
+            te.unitcell_angles[:, 2] = 95.0
+            te.unitcell_lengths[1] = [3.1, 3.3, 4.4]
+            for ext_ in ("xtc", "trr", "gro", "h5", "dcd", "nc", "lammpstrj", "dtr", "pdb"):
+                pe = os.path.join(scratch, "edited." + ext_)
+                if os.path.isdir(pe):
+                    shutil.rmtree(pe)
+                ctx.case(None, ("cell-edited-in-place", k_, ext_)); ctx.count("saves after an in-place edit of the cell")
+                try:
+                    te.save(pe)
+                    le = md.load(pe) if ext_ in ("h5", "pdb", "gro") else md.load(pe, top=te.topology)
+                except Exception as e:  # noqa: BLE001
+                    viol("cell|edited-in-place|raises|" + ext_, "saving / loading .%s after an in-place edit of the cell raised %s: %s" % (ext_, type(e).__name__, str(e)[:100]), dict(ext=ext_))
+                    continue
+                wl, wa = te.unitcell_lengths, te.unitcell_angles
+                if ext_ == "pdb":
+                    wl, wa = np.tile(wl[0], (3, 1)), np.tile(wa[0], (3, 1))          # one CRYST1 record: the first frame's cell
+                if le.unitcell_lengths is None or np.abs(le.unitcell_lengths - wl).max() > 2e-3 or np.abs(le.unitcell_angles - wa).max() > 2e-2:
+                    viol("cell|edited-in-place|" + ext_, ".%s written after the cell was edited in place (lengths *= 1.25, gamma = 95, one frame reassigned) reloads with lengths %s angles %s; the trajectory has %s %s" % (
+                        ext_, None if le.unitcell_lengths is None else le.unitcell_lengths[0].round(4).tolist(), None if le.unitcell_angles is None else le.unitcell_angles[0].round(3).tolist(),
+                        wl[0].round(4).tolist(), wa[0].round(3).tolist()), dict(ext=ext_))
         overflow_stream(ctx, md, scratch, viol)
         record_stream(ctx, md, scratch, viol, reqs, meta)
         model = ctx.driver.query(reqs) if ctx.driver_ok and reqs else [None] * len(reqs)
